@@ -6,7 +6,8 @@ id="$1"; tier="${2:-quick}"
 tag="${VERIF_BUILD_TAG:-main}"
 suffix=""; [ "$tag" != "main" ] && suffix="-$tag"
 mkdir -p .build
-if ! scripts/build.sh base >.build/build-$tag-$id.log 2>&1; then
+what=base; [ "$id" = "C08" ] && what=all
+if ! scripts/build.sh $what >.build/build-$tag-$id.log 2>&1; then
   echo "harness build failed (see .build/build-$tag-$id.log)"; tail -20 .build/build-$tag-$id.log; exit 2
 fi
 . scripts/env.sh
